@@ -146,7 +146,14 @@ func fjJobB(d tsdb.Database, res *error, done chan<- struct{}) {
 // conditions of the production job.
 func fjParked(fn string) (parked bool, state string) {
 	buf := make([]byte, 1<<20)
-	buf = buf[:runtime.Stack(buf, true)]
+	for {
+		n := runtime.Stack(buf, true)
+		if n < len(buf) || len(buf) >= 1<<28 {
+			buf = buf[:n]
+			break
+		}
+		buf = make([]byte, 2*len(buf)) // truncated dump: the goroutine may be missing
+	}
 	for _, blk := range strings.Split(string(buf), "\n\n") {
 		if !strings.Contains(blk, "c07."+fn+"(") {
 			continue
